@@ -7,10 +7,20 @@ class Timeout(Exception):
     pass
 
 
+TIMEOUTS = 0          # how many calls have run over their budget in this process
+
+
 @contextmanager
 def time_limit(seconds):
-    """Per-case wall-clock budget for calls into the implementation (pure Python, so SIGALRM works)."""
+    """Per-case wall-clock budget for calls into the implementation (pure Python, so SIGALRM works).
+    Once several calls have run over the full budget (a change that makes the parser hang has been
+    seen and will be reported), later calls get a 1 s budget so that the run still ends in minutes."""
+    if TIMEOUTS >= 4:
+        seconds = min(seconds, 1)
+
     def handler(signum, frame):
+        global TIMEOUTS
+        TIMEOUTS += 1
         raise Timeout('implementation call exceeded %ss' % seconds)
     old = signal.signal(signal.SIGALRM, handler)
     signal.setitimer(signal.ITIMER_REAL, seconds)
